@@ -10,6 +10,9 @@ use std::fmt;
 use std::iter::FromIterator;
 use syntree::Span;
 
+/// The largest power (in magnitude) a unit can be raised to.
+const MAX_POWER: i32 = 1 << 24;
+
 #[non_exhaustive]
 pub(crate) struct CompoundError;
 
@@ -371,6 +374,13 @@ impl Compound {
 
         for (unit, state) in &self.names {
             let power = state.power.checked_mul(n)?;
+
+            // NB: powers are added up and multiplied by the small exponents of
+            // derived units without further checks, so keep them well away
+            // from the limits of an `i32`.
+            if power.checked_abs()? > MAX_POWER {
+                return None;
+            }
 
             if power != 0 {
                 names.insert(
